@@ -12,6 +12,7 @@ import (
 	"strings"
 
 	"golang.org/x/tools/go/ssa"
+	"golang.org/x/tools/go/ssa/ssautil"
 )
 
 // KFExcept is the recorded failing class of a known finding, as a contract-language condition evaluated
@@ -399,7 +400,7 @@ func (ex *Exec) panicExit(cond string, panicVal *Val) {
 		for i := 0; i < res.Len(); i++ {
 			vs = append(vs, em.zero(res.At(i).Type()))
 		}
-		ex.returns = append(ex.returns, retSite{pc: ex.curPC, st: ex.curSt, vals: vs})
+		ex.returns = append(ex.returns, retSite{pc: ex.curPC, st: ex.curSt, vals: vs, viaPanic: true})
 		return
 	}
 	for _, in := range ex.fn.Recover.Instrs {
@@ -409,7 +410,7 @@ func (ex *Exec) panicExit(cond string, panicVal *Val) {
 			for _, r := range t.Results {
 				vs = append(vs, ex.val(r))
 			}
-			ex.returns = append(ex.returns, retSite{pc: ex.curPC, st: ex.curSt, vals: vs})
+			ex.returns = append(ex.returns, retSite{pc: ex.curPC, st: ex.curSt, vals: vs, viaPanic: true})
 		case *ssa.RunDefers:
 		default:
 			ex.instr(in)
@@ -856,4 +857,96 @@ func (eng *Engine) splitConjDeep(e CExpr, pkgPath string, depth int) []CExpr {
 		out = append(out, p)
 	}
 	return out
+}
+
+// splitSpecSig splits "name(params) ret" with nested parentheses in params (function types).
+func splitSpecSig(sig string) []string {
+	i := strings.IndexByte(sig, '(')
+	if i <= 0 {
+		return nil
+	}
+	name := strings.TrimSpace(sig[:i])
+	for _, c := range name {
+		if !(c == '_' || c >= 'a' && c <= 'z' || c >= 'A' && c <= 'Z' || c >= '0' && c <= '9') {
+			return nil
+		}
+	}
+	depth := 0
+	for j := i; j < len(sig); j++ {
+		switch sig[j] {
+		case '(':
+			depth++
+		case ')':
+			depth--
+			if depth == 0 {
+				return []string{sig, name, sig[i+1 : j], sig[j+1:]}
+			}
+		}
+	}
+	return nil
+}
+
+// splitTopCommas splits at commas outside parentheses and brackets.
+func splitTopCommas(s string) []string {
+	var out []string
+	depth, st := 0, 0
+	for i := 0; i < len(s); i++ {
+		switch s[i] {
+		case '(', '[', '{':
+			depth++
+		case ')', ']', '}':
+			depth--
+		case ',':
+			if depth == 0 {
+				out = append(out, s[st:i])
+				st = i + 1
+			}
+		}
+	}
+	return append(out, s[st:])
+}
+
+// loopFrame: automatic frame of a loop inside a function with an assigns clause. Every store in the function
+// (including those in the loop body and in inlined callees) carries a frame obligation: its target is an object
+// allocated after entry, or one of the assigns targets. Hence, by induction on the execution, the rows of objects
+// that existed at entry and are not assigns targets still have their entry contents at every loop head.
+func (ex *Exec) loopFrame(h, srt, cur string) {
+	r := ex.root()
+	if r.assignsAll || r.entrySt == nil || r.top0 == "" {
+		return
+	}
+	em := ex.em
+	entry := em.heapGet(r.entrySt, h, srt)
+	var excl []string
+	for _, t := range r.assignsTargets {
+		if t.heap != h {
+			continue
+		}
+		if t.ref == "" {
+			return
+		}
+		excl = append(excl, fmt.Sprintf("(not (= fr!r %s))", t.ref))
+	}
+	if !strings.HasPrefix(srt, "(Array Int ") || strings.HasPrefix(h, "G_") {
+		em.emit(fmt.Sprintf("(assert (= %s %s)) ; loop frame", cur, entry))
+		return
+	}
+	guard := and(append([]string{fmt.Sprintf("(< fr!r %s)", r.top0)}, excl...)...)
+	em.emit(fmt.Sprintf("(assert (forall ((fr!r Int)) (! (=> %s (= (select %s fr!r) (select %s fr!r))) :pattern ((select %s fr!r))))) ; loop frame", guard, cur, entry, cur))
+}
+
+// findInstance finds the instance of the generic function g whose name is name (e.g. "ListOp[any]").
+func (eng *Engine) findInstance(g *ssa.Function, name string) *ssa.Function {
+	if eng.instances == nil {
+		eng.instances = map[string]*ssa.Function{}
+		for f := range ssautil.AllFunctions(eng.Prog) {
+			if o := f.Origin(); o != nil && o != f && o.Pkg != nil {
+				if f.Pkg == nil {
+					f.Pkg = o.Pkg // instances carry no package; the engine resolves names in the origin's
+				}
+				eng.instances[o.Pkg.Pkg.Path()+"."+f.Name()] = f
+			}
+		}
+	}
+	return eng.instances[g.Pkg.Pkg.Path()+"."+name]
 }
